@@ -1,6 +1,7 @@
 package lite
 
 import (
+	"os"
 	"context"
 	"math/rand"
 	"errors"
@@ -36,13 +37,25 @@ type zzPipeConn struct {
 	failW   error
 	failAt  int // when > 0: the failAt-th write (and every later one) fails with failW
 	writes  int
+	slow    bool // every Read is a scheduling point and hands over one byte
+	expired bool // a read deadline that is not in the future has been set
 }
 
 func (c *zzPipeConn) Read(p []byte) (int, error) {
+	if c.slow {
+		zz.Yield()
+	}
+	if c.expired {
+		return 0, os.ErrDeadlineExceeded
+	}
 	if c.pos >= len(c.in) {
 		return 0, io.EOF
 	}
-	n := copy(p, c.in[c.pos:])
+	avail := c.in[c.pos:]
+	if c.slow && len(avail) > 1 {
+		avail = avail[:1]
+	}
+	n := copy(p, avail)
 	c.pos += n
 	return n, nil
 }
@@ -57,8 +70,12 @@ func (c *zzPipeConn) Write(p []byte) (int, error) {
 func (c *zzPipeConn) Close() error                     { c.closed++; return nil }
 func (c *zzPipeConn) LocalAddr() net.Addr              { return &net.TCPAddr{IP: net.IPv4(10, 0, 0, 1), Port: 25565} }
 func (c *zzPipeConn) RemoteAddr() net.Addr             { return c.remote }
-func (c *zzPipeConn) SetDeadline(time.Time) error      { return nil }
-func (c *zzPipeConn) SetReadDeadline(time.Time) error  { return nil }
+func (c *zzPipeConn) SetDeadline(t time.Time) error    { return c.SetReadDeadline(t) }
+func (c *zzPipeConn) SetReadDeadline(t time.Time) error {
+	// time does not pass within a run: a deadline in the future never expires, one that is not does at once
+	c.expired = !t.IsZero() && !t.After(time.Now())
+	return nil
+}
 func (c *zzPipeConn) SetWriteDeadline(time.Time) error { return nil }
 
 // zzFwdClient is the client side handed to Forward.
